@@ -547,6 +547,17 @@ def rule_split_table(ctx):
     sp = [(bi, t) for bi, t in pa.calls(lambda t: callee(t).endswith("str>::split"))]
     if len(sp) != 1:
         raise Inconclusive("pattern_atoms is not a single str::split")
+    # ... applied to the pattern text itself: a `trim()` (or any other rewrite) in front of the split does not know about
+    # the escapes -- `"foo\\ "` loses its escaped blank and the last word reaches the atom parser with a dangling backslash
+    recv = strip_casts(pa.expr_of_operand(sp[0][1]["args"][0]))
+    while recv[0] in ("ref", "deref"):
+        recv = strip_casts(recv[1])
+    if recv[0] == "arg":
+        ctx.ok(site(pa, sp[0][0]), "the splitter runs over the pattern text as given")
+    else:
+        ctx.violation("pattern::pattern_atoms|split-input|1", site(pa, sp[0][0]),
+                      "the word splitter runs over %s instead of the pattern text: a rewrite in front of the split is blind to the escape grammar (an escaped blank at the end "
+                      "of the pattern is trimmed away, the last atom keeps a dangling backslash)" % show(recv)[:80])
     clo = pa.expr_of_operand(sp[0][1]["args"][1])
     if clo[0] != "closure":
         raise Inconclusive("split predicate is not a closure literal")
